@@ -23,8 +23,10 @@ LEVEL_NOTE = ("theorems are about model/Compare.v (compare_db and the functions 
               "texts are interned (equality only), numbers compared via float() enter as keys of their double value, str.strip of "
               "receiver names is applied by the harness; frame_by_id's memo is modelled as a scan (C10); dump_result's printing, "
               "the `changes` payload and the None->'' rewrite of frame comments on the operands are outside the model; the swap "
-              "theorem needs `coherent` (no identifier shared by differently named frames of the two matrices) - its failure "
-              "without it is proved as C13_swap_refuted_without_coherence and counted, not claimed, by the harness")
+              "theorem on whole paths needs `coherent` (no identifier shared by differently named frames of the two matrices): a "
+              "renamed frame is reported under the first operand's name (C13_swap_refuted_without_coherence); for such pairs the "
+              "theorems are C13_unpaired_frames_reported and C13_swap_frames_added_deleted (no hypothesis), and the harness judges "
+              "the swap law on the implementation with b's frame names mapped through the pairing")
 
 D = decimal.Decimal
 IGN_KEYS = ("comments", "attributes", "definitions", "valuetables")
@@ -307,6 +309,25 @@ def arbkey(f):
 
 def coherent(a, b):
     return all(fa.name == fb.name for fa in a.frames for fb in b.frames if arbkey(fa) == arbkey(fb))
+
+
+def names_unique(db):
+    n = [f.name for f in db.frames]
+    return len(n) == len(set(n))
+
+
+def pair_frames(a, b):
+    """the documented pairing rule as a relation: frames of one name; failing that - neither name occurs in the other
+    matrix - frames of one identifier.  Returns [(frame of a, frame of b)]."""
+    na, nb = {f.name for f in a.frames}, {f.name for f in b.frames}
+    return [(fa, fb) for fa in a.frames for fb in b.frames
+            if fa.name == fb.name or (fa.name not in nb and fb.name not in na and arbkey(fa) == arbkey(fb))]
+
+
+def root_frames(res, kinds):
+    """names of the frames reported directly below the root with one of the given results, in report order"""
+    return [c.ref.name for c in res.children if c.type == "FRAME" and c.result in kinds and not c.children
+            and hasattr(c.ref, "signals")]
 
 
 def envelope(db):
@@ -1089,14 +1110,23 @@ def run(chk):
                 "UTF-8: one replaced, removed or inserted; precomposed vs combining), only in the case of one letter, or only in blanks "
                 "(leading, trailing, inner, tab, newline), and objects/entries added whose NAME differs from an existing one in that way "
                 "(4 ignore settings each), same-double Decimal edits, related pairs (0..3 edits + shuffle), unrelated pairs "
-                "(coherent and, tagged, with an identifier reused under another name), operands swapped, 8 cancompare flag sets on dumped "
+                "(incl. an identifier reused under another name), crosswise pairs (frame names and identifiers drawn independently "
+                "from pools of 5: equal and different frame counts, several frames meeting one frame, also duplicates inside a "
+                "matrix) judged with a transcription of the pairing rule, operands swapped, 8 cancompare flag sets on dumped "
                 "DBC files. non-trivial = the pair differs in at least one compared property or is reordered; distinct by (encoded pair, ignore)")
     ok = chk.build_and_audit()
     chk.assumptions += [
         "envelope of the theorems (visible hypotheses): frame and ECU names unique per matrix, signal and signal-group names unique per "
-        "frame, dict keys unique (wf_matrix); identifiers unique in the second operand for 'no difference -> agree' (refuted without: "
-        "C13_no_difference_iff_agree_refuted_without_unique_ids); `coherent a b` for the swap theorem (refuted without: "
-        "C13_swap_refuted_without_coherence); the generator stays inside the first two and tags pairs outside the third",
+        "frame, dict keys unique (wf_matrix); `coherent a b` for the swap theorem on whole paths (refuted without: "
+        "C13_swap_refuted_without_coherence - a renamed frame); C13_unpaired_frames_reported and C13_swap_frames_added_deleted "
+        "hold for any two matrices",
+        "judged on pairs with crosswise name/identifier collisions (unique names and identifiers per matrix): reports nothing <=> "
+        "agree; the frames reported deleted/added are exactly those the pairing rule (by name, else - neither name known to the "
+        "other matrix - by identifier) leaves alone; every pair compared once; additions and deletions swap with the operands as "
+        "multisets of paths, b's frame names mapped through the pairing.  Judged on pairs with duplicate names or identifiers "
+        "inside a matrix: unpaired frames are reported, root-level added/deleted frame lists swap, tree tied to the model; NOT "
+        "judged there: the iff and the swap law below the frame level",
+        "the model follows compare_db as repaired by fixes/C13_frame_pairing.patch",
         "normal form of model/Compare.v: texts interned as integers (equality only), factor/offset/min/max as bit patterns of float(x) with "
         "-0.0 = 0.0 (NaN excluded), receivers as (name, name.strip()), extended multiplexing / is_float / frame receivers are not read by "
         "compare.py and not part of the normal form",
@@ -1147,21 +1177,62 @@ def run(chk):
         return d
 
     def check_swap(a, b, bits, tag):
+        """frame pairing and the swap law.  Judged for every pair of matrices with unique frame names and identifiers:
+        (i) the frames that the pairing rule leaves alone are exactly the frames reported deleted (of a) / added (of b), every
+        pair is compared once; (ii) additions of compare(b, a) = deletions of compare(a, b) and vice versa, as multisets of
+        node paths, the frame names of b being mapped through the pairing (a renamed frame is reported under the first
+        operand's name).  For matrices with duplicate names / identifiers only: unpaired frames are reported, and the
+        root-level lists of added and deleted frames swap."""
         r1, _, _, _ = compare(a, b, bits)
         r2, _, _, _ = compare(b, a, bits)
         if r1 is None or r2 is None:
             return
-        good = (kind_paths(r2, ("added",)) == kind_paths(r1, ("deleted", "removed"))
-                and kind_paths(r1, ("added",)) == kind_paths(r2, ("deleted", "removed")))
-        if coherent(a, b):
-            chk.count("swap-checked-" + tag)
-            if not good:
-                chk.violation("swap", "swapping the operands does not swap additions and deletions", describe(a, b, bits),
-                              sorted(map(str, kind_paths(r1, ("deleted", "removed")).elements())),
-                              sorted(map(str, kind_paths(r2, ("added",)).elements())))
-        else:
-            # outside the swap claim (see LEVEL_NOTE): counted only
-            chk.count("swap-incoherent-pair-" + ("holds" if good else "fails"))
+        pairs = pair_frames(a, b)
+        inco = not coherent(a, b)
+        key = "frame-pairing" if inco else "swap"
+        pa, pb = {id(x) for x, _ in pairs}, {id(y) for _, y in pairs}
+        lone_a = [f.name for f in a.frames if id(f) not in pa]
+        lone_b = [f.name for f in b.frames if id(f) not in pb]
+        chk.count("pairing-%s-%s" % (tag, "crosswise" if inco else "by-name"))
+        inp = describe(a, b, bits, dict(paired=[(x.name, y.name) for x, y in pairs]))
+        # unconditional: frames added/deleted swap as lists; unpaired frames are reported
+        if root_frames(r2, ("added",)) != root_frames(r1, ("deleted",)) or root_frames(r1, ("added",)) != root_frames(r2, ("deleted",)):
+            chk.violation(key, "the frames reported added and deleted do not swap with the operands", inp,
+                          dict(deleted_ab=root_frames(r1, ("deleted",)), added_ab=root_frames(r1, ("added",))),
+                          dict(added_ba=root_frames(r2, ("added",)), deleted_ba=root_frames(r2, ("deleted",))))
+        miss = ([n for n in lone_a if n not in root_frames(r1, ("deleted",))] + [n for n in lone_b if n not in root_frames(r1, ("added",))])
+        if miss:
+            chk.violation(key, "a frame that is paired with no frame of the other matrix (by name, else by identifier) is not reported "
+                          "as deleted resp. added", inp, dict(deleted=lone_a, added=lone_b),
+                          dict(deleted=root_frames(r1, ("deleted",)), added=root_frames(r1, ("added",))))
+        if not (envelope(a) and envelope(b)):
+            chk.count("pairing-judged-partially (duplicate names or identifiers)")
+            return
+        if sorted(root_frames(r1, ("deleted",))) != sorted(lone_a) or sorted(root_frames(r1, ("added",))) != sorted(lone_b):
+            chk.violation(key, "the frames reported deleted / added are not exactly the frames without partner", inp,
+                          dict(deleted=sorted(lone_a), added=sorted(lone_b)),
+                          dict(deleted=root_frames(r1, ("deleted",)), added=root_frames(r1, ("added",))))
+        compared = sorted(c.ref.name for c in r1.children if c.type == "FRAME" and c.result not in ("deleted", "added"))
+        if compared != sorted(x.name for x, _ in pairs):
+            chk.violation(key, "not every pair of frames is compared exactly once", inp, sorted(x.name for x, _ in pairs), compared)
+        # the swap law on whole paths, frame names of b mapped through the pairing
+        to_a = {y.name: x.name for x, y in pairs}
+
+        def mapped(counter):
+            out = collections.Counter()
+            for path, n in counter.items():
+                # the frame's own node and its ATTRIBUTES node refer to the first operand's frame
+                fr = bool(path) and path[0][0] == "FRAME"
+                out[tuple((t, to_a.get(r, r)) if fr and (t, i) in (("FRAME", 0), ("ATTRIBUTES", 1)) else (t, r)
+                          for i, (t, r) in enumerate(path))] += n
+            return out
+        good = (mapped(kind_paths(r2, ("added",))) == kind_paths(r1, ("deleted", "removed"))
+                and kind_paths(r1, ("added",)) == mapped(kind_paths(r2, ("deleted", "removed"))))
+        chk.count("swap-checked-" + tag + ("-crosswise" if inco else ""))
+        if not good:
+            chk.violation(key, "swapping the operands does not swap additions and deletions", inp,
+                          sorted(map(str, kind_paths(r1, ("deleted", "removed")).elements())),
+                          sorted(map(str, mapped(kind_paths(r2, ("added",))).elements())))
 
     def check_iff(a, b, tag, all_bits=False, tie_n=1):
         """reports nothing <=> agree, for the chosen ignore settings"""
@@ -1320,6 +1391,38 @@ def run(chk):
             check_iff(a, b, "unrelated", tie_n=2)
             check_swap(a, b, rng.choice(ALL_IGN), "unrelated")
             check_iff(b, a, "unrelated", tie_n=1)
+        # crosswise pairs: frame names AND identifiers drawn independently from small shared pools, equal and different frame
+        # counts, several frames of one matrix meeting the same frame of the other by name resp. by identifier
+        for k in range(5):
+            dups = k == 4            # last one: duplicate names / identifiers inside a matrix are allowed (judged partially)
+            na = rng.randrange(1, 5)
+            nb = na if rng.random() < 0.5 else rng.randrange(1, 5)
+            pair = []
+            for n in (na, nb):
+                if dups:
+                    ns = [rng.randrange(5) for _ in range(n)]
+                    arbs = [universe_id(rng.randrange(5)) for _ in range(n)]
+                else:
+                    ns = rng.sample(range(5), n)
+                    arbs = [universe_id(i) for i in rng.sample(range(5), n)]
+                db = C.CanMatrix()
+                for ni, arb in zip(ns, arbs):
+                    db.add_frame(gen.frame(ni, arb=arb))
+                pair.append(db)
+            ca, cb = pair
+            chk.count("crosswise-pair-%s%s" % ("dup-" if dups else "", "same-count" if na == nb else "other-count"))
+            landing = collections.Counter(id(y) for _, y in pair_frames(ca, cb))
+            if any(v > 1 for v in landing.values()):
+                chk.count("crosswise-pair-several-frames-on-one")
+            bits = rng.choice(ALL_IGN)
+            if dups:
+                res, case, enc, _ = compare(ca, cb, bits)
+                chk.case(("crosswise-dup", str(case)), True)
+                if res is not None:
+                    tie(case, enc, dict(tag="crosswise-dup", ignore=bits))
+            else:
+                check_iff(ca, cb, "crosswise", tie_n=2)
+            check_swap(ca, cb, bits, "crosswise")
         # limits absent: the comparison raises (model: None)
         if mi % 10 == 0:
             b = copy.deepcopy(a)
